@@ -395,7 +395,7 @@ class BHarness:
     """one symbolic-execution harness: entry `entry` (void(void), nondet_* inputs, __CPROVER_assume, __verif_check) in TU `src`"""
     def __init__(s, name, src, entry, defs=(), noinline=False, inline_all=False, tie_free=False, monotone=False, exact_add=False, stubs=None, maxpaths=20000, maxsteps=400000,
                  timeout=900, solver_timeout_ms=60000, what='', bound='', pre_inc=(), cflags=(), tiers=('quick', 'thorough'), std='c++11', min_paths=1, extra_exclusions=(), allow_error=False,
-                 native_replay=True, post=None, split=1, log_stores=False):
+                 native_replay=True, post=None, split=1, log_stores=False, strict=False):
         s.__dict__.update(locals()); del s.__dict__['s']; s.redirect = None
 
 def _b_worker(args):
@@ -422,7 +422,7 @@ def _b_worker(args):
             extra = None
             if E.fp.tiny_sites:
                 BIG = irz.RV(Fraction(1, 2**940))
-                extra = z3.And([z3.Or(x >= BIG, x <= -BIG) for x in E.fp.tiny_sites])   # stated exclusion: guarded quantities not within 2^-940 of zero
+                extra = z3.And([(z3.Or(x >= BIG, x <= -BIG) if irz.contains_uf(x) else z3.Or(x == 0, x >= BIG, x <= -BIG)) for x in E.fp.tiny_sites])   # stated exclusion: quantities guarded by +DBL_MIN are not within 2^-940 of zero (inputs may be exactly zero)
             res = irz.check_obligations(E, extra)
             for (name, verdict, mdl, dt) in res:
                 out['obl'] += 1; out['solver_s'] += dt
@@ -433,7 +433,7 @@ def _b_worker(args):
                     if len(out['candidates']) < 40: out['candidates'].append({'obligation': name, 'words': ws, 'kinds': [k for _, k, _ in E.nondet], 'decisions': list(E.decisions)})
                 if len(out['samples']) < 6: out['samples'].append({'path_decisions': ''.join('T' if d else 'F' for d in E.decisions)[:80], 'obligation': name, 'verdict': verdict, 'solver_s': round(dt, 4)})
         from fractions import Fraction
-        st = irz.explore(m, '@' + h.entry, lambda: irz.SymFP(monotone=h.monotone, exact_add=h.exact_add), on_path=on_path, tie_free=h.tie_free, stubs=h.stubs,
+        st = irz.explore(m, '@' + h.entry, lambda: irz.SymFP(monotone=h.monotone, exact_add=h.exact_add, strict=h.strict), on_path=on_path, tie_free=h.tie_free, stubs=h.stubs,
                          maxpaths=h.maxpaths, maxsteps=h.maxsteps, timeout=h.timeout, solver_timeout_ms=h.solver_timeout_ms,
                          initial_work=initial_work, stop_when_pending=(h.split * 6 if seeding else None), log_stores=h.log_stores)
         out['queries'] = st['queries'] + out['obl']; out['infeasible'] = st['infeasible']; out['remaining'] = st['remaining']
@@ -451,7 +451,12 @@ def perturb_words(words, kinds, rnd, k):
         if kd != 'd' or j >= len(ws): continue
         d = struct.unpack('<d', struct.pack('<Q', ws[j]))[0]
         if k == 0: continue
-        if d == 0: nd = 0.0 if rnd.random() < 0.5 else rnd.choice([1e-3, 0.1, 0.5, 1., 2.5, 10.]) * rnd.choice([1, -1])
+        if k >= 12:
+            # free search phase: physically plausible magnitudes, keeping exact zeros of the model (vacuum etc.) most of the time
+            if d == 0 and rnd.random() < 0.8: nd = 0.0
+            elif rnd.random() < 0.25: nd = d
+            else: nd = 10 ** rnd.uniform(-2, 2) * (rnd.choice([1, 1, -1]) if d >= 0 else rnd.choice([-1, -1, 1]))
+        elif d == 0: nd = 0.0 if rnd.random() < 0.5 else rnd.choice([1e-3, 0.1, 0.5, 1., 2.5, 10.]) * rnd.choice([1, -1])
         else: nd = d * rnd.choice([1., 1., 0.5, 2., 1.1, 0.9, 1e-2, 1e2, 0.37, 3.3])
         ws[j] = struct.unpack('<Q', struct.pack('<d', nd))[0]
     return ws
@@ -516,7 +521,7 @@ def run_engine_b(pid, tier, harnesses, ev, work, known_match=None, custom_replay
                     if v == 'reproduced': reproduced = payload; break
                     continue
             if not h.native_replay: continue
-            for k in range(12 if tier == 'quick' else 40):
+            for k in range(150 if tier == 'quick' else 400):
                 ws = perturb_words(c['words'], c['kinds'], rnd, k)
                 try: verdict, outp = native_replay(work, h, ws, tag='b%d' % tried)
                 except Broken as b2: broken.append('%s: replay build failed: %s' % (h.name, b2)); verdict = 'x'; break
